@@ -9,20 +9,18 @@ open Ebv.Ebpf
 def opW (e : Expr) : Bool := widthOf e || exactShort e
 
 /-- width at which the right operand is analysed: 64 bits when the left operand asks for them -/
-def rW (l r : Expr) : Bool := if l.signed && widthOf l then true else opW r
+def rW (l r : Expr) : Bool := if (l.signed || r.signed) && widthOf l then true else opW r
 
 /-- static hypotheses on a comparison operand computed at width `b` into any register -/
 structure OperandOk (e : Expr) (b : Bool) (o : List Nat) : Prop where
   leaves : leavesOwned o e
   frag : e.frag = true
-  inplace : unaryInPlace e false = false
   narrow : narrowIn64 e b false .any = false
-  neg32 : neg32in64 e b = false
 
 theorem OperandOk.pre {e : Expr} {b : Bool} {o : List Nat} (h : OperandOk e b o) {g : GenState}
     (hsub : ∀ n, n ∈ o → n ∈ g.owners) : Pre e none b false g :=
-  ⟨fun n hn => (by cases hn), fun hf => (by cases hf), leavesOwned_mono hsub h.leaves, h.frag, h.inplace,
-    by simpa [dctx] using h.narrow, h.neg32⟩
+  ⟨fun n hn => (by cases hn), fun hf => (by cases hf), leavesOwned_mono hsub h.leaves, h.frag,
+    by simpa [dctx] using h.narrow⟩
 
 /-- left operand: `calculate(None, None)` -/
 theorem calc_operand (e : Expr) (g g' : GenState) (res : CalcRes) (hp : Pre e none (opW e) false g)
@@ -36,11 +34,11 @@ theorem calc_operand (e : Expr) (g g' : GenState) (res : CalcRes) (hp : Pre e no
     rw [hw] at hp ⊢
     exact calc_correct e none (widthOf e) false g g' res hp (calc_none e none false g g' res h)
 
-/-- right operand: `calculate(None, left.signed and l_long or None)` -/
+/-- right operand: `calculate(None, (left.signed or right.signed) and l_long or None)` -/
 theorem calc_operand_r (l r : Expr) (g g' : GenState) (res : CalcRes) (hp : Pre r none (rW l r) false g)
-    (h : calculate r none (if l.signed && widthOf l then some true else none) false g = .ok (res, g')) :
+    (h : calculate r none (if (l.signed || r.signed) && widthOf l then some true else none) false g = .ok (res, g')) :
     Post r none (rW l r) false g res g' := by
-  by_cases hc : (l.signed && widthOf l) = true
+  by_cases hc : ((l.signed || r.signed) && widthOf l) = true
   · simp only [rW, hc, if_true] at h hp ⊢
     exact calc_correct r none true false g g' res hp h
   · simp only [rW, hc] at h hp ⊢
@@ -75,12 +73,12 @@ theorem widen_correct (dst : Nat) (g g' : GenState) (hd : dst ∈ g.owners) (h :
   rw [bind_ok] at h
   obtain ⟨u, g1, h1, h2⟩ := h
   have hc : g.owners.contains dst = true := by simpa using hd
-  have p1 : PreReg (lshE dst) dst true g := ⟨⟨hd, trivial⟩, rfl, rfl, by simp [lshE, narrowIn64], rfl⟩
+  have p1 : PreReg (lshE dst) dst true g := ⟨⟨hd, trivial⟩, rfl, by simp [lshE, narrowIn64]⟩
   obtain ⟨⟨⟨c1, hc1, hs1, hr1⟩, hst1⟩, ho1⟩ := setReg_correct (lshE dst) dst true g g1 p1 h1
   rw [hc] at ho1; simp only [if_true] at ho1
   have hd1 : dst ∈ g1.owners := by rw [ho1]; exact hd
   have hc' : g1.owners.contains dst = true := by simpa using hd1
-  have p2 : PreReg (arshE dst) dst true g1 := ⟨⟨hd1, trivial⟩, rfl, rfl, by simp [arshE, narrowIn64], rfl⟩
+  have p2 : PreReg (arshE dst) dst true g1 := ⟨⟨hd1, trivial⟩, rfl, by simp [arshE, narrowIn64]⟩
   obtain ⟨⟨⟨c2, hc2, hs2, hr2⟩, hst2⟩, ho2⟩ := setReg_correct (arshE dst) dst true g1 g' p2 h2
   rw [hc'] at ho2; simp only [if_true] at ho2
   refine ⟨⟨⟨c1 ++ c2, by rw [hc2, hc1, List.append_assoc], ?_, ?_⟩, by rw [hst2, hst1]⟩, by rw [ho2, ho1]⟩
